@@ -1524,24 +1524,58 @@ func (r *Runner) checkGauges(st Step) {
 		if lastChildOnly {
 			co = "after-child-only-batch"
 		}
-		// What is it that the lower level lacks?  If its content is a
-		// prefix of the history, the batches after that prefix are pending:
-		// either they carry operations (which the gauges could count) or
-		// they only create / delete child collections.
+		// What is it that the lower level lacks?  If the reference content
+		// follows from the lower level's by deleting child collections and
+		// creating empty ones alone, only structural changes are pending
+		// (no operation, byte or segment exists that a gauge could count);
+		// anything else is data the gauges should have counted.
 		if e.Cfg.Backing == "store" {
-			pend := "lower-level-not-a-prefix"
-			if ks := e.World.Prefixes(tree.Hash()); len(ks) > 0 {
-				if e.World.PendingOps(ks[len(ks)-1]) == 0 {
-					pend = "pending-structure-only"
-				} else {
-					pend = "pending-data"
-				}
+			if structureOnlyDiff(tree, want) {
+				co = "pending-structure-only/" + co
+			} else {
+				co = "pending-data/" + co
 			}
-			co = pend + "/" + co
 		}
 		r.viol("gauges", "zero-gauges-but-not-persisted/"+where, co,
 			fmt.Sprintf("Stats shows CurDirtyOps=CurDirtyBytes=CurDirtySegments=0 with n=%d batches, but lower level differs: %s", e.World.N(), m))
 	}
+}
+
+// hollow reports whether a collection holds no key anywhere in its subtree.
+func hollow(c *model.Coll) bool {
+	if len(c.KV) > 0 {
+		return false
+	}
+	for _, ch := range c.Ch {
+		if !hollow(ch) {
+			return false
+		}
+	}
+	return true
+}
+
+// structureOnlyDiff reports whether want follows from have by deleting child
+// collections and creating (or recreating) empty ones, nothing else.
+func structureOnlyDiff(have, want *model.Coll) bool {
+	if len(have.KV) != len(want.KV) {
+		return false
+	}
+	for k, v := range want.KV {
+		hv, ok := have.KV[k]
+		if !ok || !bytes.Equal(hv, v) {
+			return false
+		}
+	}
+	for n, wc := range want.Ch {
+		if hollow(wc) {
+			continue // created, or deleted and recreated, empty
+		}
+		hc, ok := have.Ch[n]
+		if !ok || !structureOnlyDiff(hc, wc) {
+			return false
+		}
+	}
+	return true // children only in have: deletion pending
 }
 
 // ---------------------------------------------------------------- lower
